@@ -1323,6 +1323,14 @@ class ComputeGraph(MultiDiGraph):
             if arg_str not in expr_str and arg_str.startswith('-') and expr_part.startswith('-'):
                 # sympy prints a negative summand as " - x" inside a sum
                 expr_str = expr_str.replace(f"- {arg_str[1:]}", f"- {expr_part[1:]}")
+            elif arg_str not in expr_str and arg_str.startswith('1/') and expr_part.startswith('1/'):
+                # sympy prints a reciprocal factor as "/x" or inside "/(x*y)" in a product
+                expr_str = expr_str.replace(arg_str[2:], expr_part[2:])
+            elif arg_str not in expr_str and '**(-' in arg_str and '**(-' in expr_part and arg_str.endswith(')'):
+                # ... and x**(-n) as "/x**n"
+                base, n = arg_str[:-1].rsplit('**(-', 1)
+                pbase, pn = expr_part[:-1].rsplit('**(-', 1)
+                expr_str = expr_str.replace(f"{base}**{n}", f"{pbase}**{pn}")
             else:
                 expr_str = expr_str.replace(arg_str, expr_part)
         var = str(expr_args[0]) if expr.args else ""
